@@ -16,6 +16,7 @@ type memLedger struct {
 	state map[string][]byte
 	calls []c12Write
 	reads int
+	refuse string // writes of this key are refused (a peer refuses keys, e.g. CouchDB keys that start with an underscore)
 	fail  string // the next read of this key fails (a ledger read can fail: peer trouble, a state database time-out)
 }
 
@@ -44,6 +45,9 @@ func (m *memLedger) GetState(key string) ([]byte, error) {
 }
 
 func (m *memLedger) PutState(key string, value []byte) error {
+	if m.refuse != "" && m.refuse == key {
+		return errors.New("ledger write refused")
+	}
 	m.calls = append(m.calls, c12Write{key, value, false})
 	if len(value) == 0 {
 		delete(m.state, key)
@@ -54,6 +58,9 @@ func (m *memLedger) PutState(key string, value []byte) error {
 }
 
 func (m *memLedger) DelState(key string) error {
+	if m.refuse != "" && m.refuse == key {
+		return errors.New("ledger write refused")
+	}
 	m.calls = append(m.calls, c12Write{key, nil, true})
 	delete(m.state, key)
 	return nil
@@ -77,11 +84,29 @@ type c12Case struct {
 	Outs  []c12Out          `json:"outs"`
 	Final map[string][]byte `json:"final"`
 	Calls []c12Write        `json:"calls"`
+	// the same history run again on a ledger that refuses the write of one of the flushed keys (each in turn): did a
+	// Commit report success although a write had been refused?
+	LostCommitError bool `json:"lost_commit_error"`
 }
 
 // c12Run executes one history on the real cachestub package.
 func c12Run(led map[string][]byte, hist []c12Op) c12Case {
-	ml := &memLedger{state: map[string][]byte{}}
+	cs, _ := c12RunOn(led, hist, "")
+	seen := map[string]bool{}
+	for _, w := range cs.Calls {
+		if seen[w.Key] {
+			continue
+		}
+		seen[w.Key] = true
+		if _, err := c12RunOn(led, hist, w.Key); err == nil {
+			cs.LostCommitError = true
+		}
+	}
+	return cs
+}
+
+func c12RunOn(led map[string][]byte, hist []c12Op, refuse string) (c12Case, error) {
+	ml := &memLedger{state: map[string][]byte{}, refuse: refuse}
 	for k, v := range led {
 		ml.state[k] = v
 	}
@@ -152,14 +177,14 @@ func c12Run(led map[string][]byte, hist []c12Op) c12Case {
 			outs = append(outs, c12Out{Kind: "none"})
 		}
 	}
-	_ = bs.Commit()
+	commitErr := bs.Commit()
 	calls := append([]c12Write(nil), ml.calls...)
 	sort.SliceStable(calls, func(i, j int) bool { return calls[i].Key < calls[j].Key })
 	final := map[string][]byte{}
 	for k, v := range ml.state {
 		final[k] = v
 	}
-	return c12Case{Led: led, Hist: hist, Outs: outs, Final: final, Calls: calls}
+	return c12Case{Led: led, Hist: hist, Outs: outs, Final: final, Calls: calls}, commitErr
 }
 
 // keys are interned by their rank in Go string order (the order sort.Strings uses)
@@ -236,8 +261,8 @@ func c12Term(cs c12Case) string {
 			outs[i] = "ONone"
 		}
 	}
-	return fmt.Sprintf("mkCase %s %s %s %s %s", c12Ledger(cs.Led), coqList(ops), coqList(outs),
-		c12Ledger(cs.Final), c12Writes(cs.Calls))
+	return fmt.Sprintf("mkCase %s %s %s %s %s %s", c12Ledger(cs.Led), coqList(ops), coqList(outs),
+		c12Ledger(cs.Final), c12Writes(cs.Calls), coqBool(cs.LostCommitError))
 }
 
 func c12Nontrivial(h []c12Op) bool {
@@ -257,6 +282,7 @@ func c12Nontrivial(h []c12Op) bool {
 
 func genC12(c *Ctx) error {
 	c.Notes["keys"] = c12Keys
+	c.Notes["refused_writes"] = "every history is run again once per flushed key on a ledger that refuses the write of that key: Commit must report the failure"
 	c.Notes["failing_reads"] = "3 in 100 steps of the random histories are reads that fail if they reach the ledger (no step of the model: they must leave nothing behind)"
 	ledgers := []map[string][]byte{
 		{},
